@@ -8,6 +8,84 @@ use super::*;
 /*@*/ spec fn tbl_bounded(t: Map<(usize, usize), u32>, new_len: int, old_len: int) -> bool {
 /*@*/     forall|k: (usize, usize)| #[trigger] t.contains_key(k) ==> k.0 < new_len && k.1 < old_len && t[k] <= new_len - k.0 && t[k] <= old_len - k.1
 /*@*/ }
+/*@*/ // ---- C03: the table is the LCS table of the two ranges.  Cell (i, j) - NEW index first - belongs to old[os + j .. oe) and new[ns + i .. ne)
+/*@*/ /// value of cell (i, j); the code stores only positive values, absent cells are 0
+/*@*/ spec fn tbl_val(t: Map<(usize, usize), u32>, i: int, j: int) -> int {
+/*@*/     if t.contains_key((i as usize, j as usize)) { t[(i as usize, j as usize)] as int } else { 0 }
+/*@*/ }
+/*@*/ spec fn cell_ok <Old: Index<usize> + ?Sized, New: Index<usize> + ?Sized>(t: Map<(usize, usize), u32>, old: &Old, os: int, oe: int, new: &New, ns: int, ne: int, i: int, j: int) -> bool where New::Output: PartialEq<Old::Output>
+/*@*/ { tbl_val(t, i, j) == lcs_len(old, os + j, oe, new, ns + i, ne) }
+/*@*/ /// cell (i2, j2) is filled no later than cell (i, j): rows from the last one up, each row from its last column down
+/*@*/ spec fn cell_done(i2: int, j2: int, i: int, j: int) -> bool { i2 > i || (i2 == i && j2 >= j) }
+/*@*/ /// all cells filled no later than (i, j) - including the zero border row/column - are final, nothing else is stored
+/*@*/ spec fn tbl_upto <Old: Index<usize> + ?Sized, New: Index<usize> + ?Sized>(t: Map<(usize, usize), u32>, old: &Old, os: int, oe: int, new: &New, ns: int, ne: int, i: int, j: int) -> bool where New::Output: PartialEq<Old::Output>
+/*@*/ {
+/*@*/     (forall|i2: int, j2: int| 0 <= i2 <= ne - ns && 0 <= j2 <= oe - os && cell_done(i2, j2, i, j) ==> #[trigger] cell_ok(t, old, os, oe, new, ns, ne, i2, j2))
+/*@*/     && (forall|k: (usize, usize)| #[trigger] t.contains_key(k) ==> k.0 < ne - ns && k.1 < oe - os && cell_done(k.0 as int, k.1 as int, i, j))
+/*@*/ }
+/*@*/ /// make_table's result: for all 0 <= i <= new_len, 0 <= j <= old_len the cell (i, j) is lcs_len(old[os + j ..), new[ns + i ..))
+/*@*/ spec fn tbl_lcs <Old: Index<usize> + ?Sized, New: Index<usize> + ?Sized>(t: Map<(usize, usize), u32>, old: &Old, os: int, oe: int, new: &New, ns: int, ne: int) -> bool where New::Output: PartialEq<Old::Output>
+/*@*/ {
+/*@*/     forall|i: int, j: int| 0 <= i <= ne - ns && 0 <= j <= oe - os ==> #[trigger] cell_ok(t, old, os, oe, new, ns, ne, i, j)
+/*@*/ }
+/*@*/ proof fn lemma_tbl_init <Old: Index<usize> + ?Sized, New: Index<usize> + ?Sized>(old: &Old, os: int, oe: int, new: &New, ns: int, ne: int) where New::Output: PartialEq<Old::Output>
+/*@*/   requires os <= oe, ns <= ne
+/*@*/   ensures tbl_upto(Map::<(usize, usize), u32>::empty(), old, os, oe, new, ns, ne, ne - ns, 0)
+/*@*/ {
+/*@*/     let t = Map::<(usize, usize), u32>::empty();
+/*@*/     assert forall|i2: int, j2: int| 0 <= i2 <= ne - ns && 0 <= j2 <= oe - os && cell_done(i2, j2, ne - ns, 0) implies #[trigger] cell_ok(t, old, os, oe, new, ns, ne, i2, j2) by {
+/*@*/         lemma_lcs_empty(old, os + j2, oe, new, ns + i2, ne);
+/*@*/     }
+/*@*/ }
+/*@*/ /// starting row i: the border cell (i, old_len) is 0
+/*@*/ proof fn lemma_tbl_row <Old: Index<usize> + ?Sized, New: Index<usize> + ?Sized>(t: Map<(usize, usize), u32>, old: &Old, os: int, oe: int, new: &New, ns: int, ne: int, i: int) where New::Output: PartialEq<Old::Output>
+/*@*/   requires os <= oe, 0 <= i < ne - ns, tbl_upto(t, old, os, oe, new, ns, ne, i + 1, 0)
+/*@*/   ensures tbl_upto(t, old, os, oe, new, ns, ne, i, oe - os)
+/*@*/ {
+/*@*/     assert forall|i2: int, j2: int| 0 <= i2 <= ne - ns && 0 <= j2 <= oe - os && cell_done(i2, j2, i, oe - os) implies #[trigger] cell_ok(t, old, os, oe, new, ns, ne, i2, j2) by {
+/*@*/         if i2 > i {
+/*@*/             assert(cell_done(i2, j2, i + 1, 0));
+/*@*/         } else {
+/*@*/             lemma_lcs_empty(old, os + j2, oe, new, ns + i2, ne);
+/*@*/             if t.contains_key((i2 as usize, j2 as usize)) { assert(((i2 as usize, j2 as usize)).1 < oe - os); }
+/*@*/         }
+/*@*/     }
+/*@*/     assert forall|k: (usize, usize)| #[trigger] t.contains_key(k) implies k.0 < ne - ns && k.1 < oe - os && cell_done(k.0 as int, k.1 as int, i, oe - os) by {
+/*@*/         assert(cell_done(k.0 as int, k.1 as int, i + 1, 0));
+/*@*/     }
+/*@*/ }
+/*@*/ /// the recurrence of lcs_len read off the table: what the loop body computes for cell (i, j)
+/*@*/ proof fn lemma_tbl_cell <Old: Index<usize> + ?Sized, New: Index<usize> + ?Sized>(t: Map<(usize, usize), u32>, old: &Old, os: int, oe: int, new: &New, ns: int, ne: int, i: int, j: int) where New::Output: PartialEq<Old::Output>
+/*@*/   requires 0 <= i < ne - ns, 0 <= j < oe - os, tbl_upto(t, old, os, oe, new, ns, ne, i, j + 1)
+/*@*/   ensures lcs_len(old, os + j, oe, new, ns + i, ne) == (if eqv(old, os + j, new, ns + i) { tbl_val(t, i + 1, j + 1) + 1 } else { imax(tbl_val(t, i + 1, j), tbl_val(t, i, j + 1)) })
+/*@*/ {
+/*@*/     assert(cell_done(i + 1, j + 1, i, j + 1) && cell_done(i + 1, j, i, j + 1) && cell_done(i, j + 1, i, j + 1));
+/*@*/     assert(cell_ok(t, old, os, oe, new, ns, ne, i + 1, j + 1));
+/*@*/     assert(cell_ok(t, old, os, oe, new, ns, ne, i + 1, j));
+/*@*/     assert(cell_ok(t, old, os, oe, new, ns, ne, i, j + 1));
+/*@*/     assert(os + (j + 1) == os + j + 1 && ns + (i + 1) == ns + i + 1);
+/*@*/ }
+/*@*/ /// storing the value of cell (i, j) (or leaving it absent when it is 0)
+/*@*/ proof fn lemma_tbl_store <Old: Index<usize> + ?Sized, New: Index<usize> + ?Sized>(tp: Map<(usize, usize), u32>, t: Map<(usize, usize), u32>, old: &Old, os: int, oe: int, new: &New, ns: int, ne: int, i: int, j: int, val: u32) where New::Output: PartialEq<Old::Output>
+/*@*/   requires 0 <= i < ne - ns, 0 <= j < oe - os, ne - ns <= usize::MAX, oe - os <= usize::MAX,
+/*@*/       tbl_upto(tp, old, os, oe, new, ns, ne, i, j + 1),
+/*@*/       val == lcs_len(old, os + j, oe, new, ns + i, ne),
+/*@*/       t == (if val > 0 { tp.insert((i as usize, j as usize), val) } else { tp }),
+/*@*/   ensures tbl_upto(t, old, os, oe, new, ns, ne, i, j)
+/*@*/ {
+/*@*/     if tp.contains_key((i as usize, j as usize)) { assert(cell_done(((i as usize, j as usize)).0 as int, ((i as usize, j as usize)).1 as int, i, j + 1)); }
+/*@*/     assert forall|i2: int, j2: int| 0 <= i2 <= ne - ns && 0 <= j2 <= oe - os && cell_done(i2, j2, i, j) implies #[trigger] cell_ok(t, old, os, oe, new, ns, ne, i2, j2) by {
+/*@*/         if i2 == i && j2 == j {
+/*@*/         } else {
+/*@*/             assert(cell_done(i2, j2, i, j + 1));
+/*@*/             assert(cell_ok(tp, old, os, oe, new, ns, ne, i2, j2));
+/*@*/             assert((i2 as usize, j2 as usize) != (i as usize, j as usize));
+/*@*/         }
+/*@*/     }
+/*@*/     assert forall|k: (usize, usize)| #[trigger] t.contains_key(k) implies k.0 < ne - ns && k.1 < oe - os && cell_done(k.0 as int, k.1 as int, i, j) by {
+/*@*/         if k != (i as usize, j as usize) { assert(tp.contains_key(k)); assert(cell_done(k.0 as int, k.1 as int, i, j + 1)); }
+/*@*/     }
+/*@*/ }
 fn make_table<Old, New>(
     old: &Old,
     old_range: Range<usize>,
@@ -21,30 +99,39 @@ where
     New::Output: PartialEq<Old::Output>,
 /*@*/     requires box_pre(old, old_range, new, new_range),
 /*@*/         (old_range.end - old_range.start) <= u32::MAX || (new_range.end - new_range.start) <= u32::MAX,
+/*@*/     ensures
+/*@*/         deadline is None ==> res is Some,
+/*@*/         res matches Some(t) ==> tbl_lcs(t@, old, old_range.start as int, old_range.end as int, new, new_range.start as int, new_range.end as int),
 {
     /*@*/ broadcast use {axiom_pure_index, axiom_pure_eq};
     let old_len = old_range.len();
     let new_len = new_range.len();
     let mut table = BTreeMap::new();
 
+    /*@*/ proof { lemma_tbl_init(old, old_range.start as int, old_range.end as int, new, new_range.start as int, new_range.end as int); }
     for i in (0..new_len).rev()
     /*@*/     invariant
     /*@*/         old_len == old_range.end - old_range.start, new_len == new_range.end - new_range.start,
     /*@*/         box_pre(old, old_range, new, new_range),
     /*@*/         old_len <= u32::MAX || new_len <= u32::MAX,
     /*@*/         tbl_bounded(table@, new_len as int, old_len as int),
+    /*@*/         0 <= VERUS_ghost_iter.index@ <= new_len,
+    /*@*/         tbl_upto(table@, old, old_range.start as int, old_range.end as int, new, new_range.start as int, new_range.end as int, new_len - VERUS_ghost_iter.index@, 0),
     {
         // are we running for too long?  give up on the table
         if deadline_exceeded(deadline) {
             return None;
         }
 
+        /*@*/ proof { lemma_tbl_row(table@, old, old_range.start as int, old_range.end as int, new, new_range.start as int, new_range.end as int, i as int); }
         for j in (0..old_len).rev()
         /*@*/     invariant
         /*@*/         old_len == old_range.end - old_range.start, new_len == new_range.end - new_range.start,
         /*@*/         box_pre(old, old_range, new, new_range), i < new_len,
         /*@*/         old_len <= u32::MAX || new_len <= u32::MAX,
         /*@*/         tbl_bounded(table@, new_len as int, old_len as int),
+        /*@*/         0 <= VERUS_ghost_iter.index@ <= old_len,
+        /*@*/         tbl_upto(table@, old, old_range.start as int, old_range.end as int, new, new_range.start as int, new_range.end as int, i as int, old_len - VERUS_ghost_iter.index@),
         {
             let val = if new[new_range.start + i] == old[old_range.start + j] {
                 table.get(&(i + 1, j + 1)).unwrap_or(&0) + 1
@@ -54,12 +141,19 @@ where
                     .unwrap_or(&0)
                     .max(table.get(&(i, j + 1)).unwrap_or(&0))
             };
+            /*@*/ let ghost tp = table@;
+            /*@*/ proof {
+            /*@*/     lemma_tbl_cell(tp, old, old_range.start as int, old_range.end as int, new, new_range.start as int, new_range.end as int, i as int, j as int);
+            /*@*/     assert(val == lcs_len(old, old_range.start + j, old_range.end as int, new, new_range.start + i, new_range.end as int));
+            /*@*/ }
             if val > 0 {
                 table.insert((i, j), val);
             }
+            /*@*/ proof { lemma_tbl_store(tp, table@, old, old_range.start as int, old_range.end as int, new, new_range.start as int, new_range.end as int, i as int, j as int, val); }
         }
     }
 
+    /*@*/ proof { assert(tbl_lcs(table@, old, old_range.start as int, old_range.end as int, new, new_range.start as int, new_range.end as int)); }
     Some(table)
 }
 //@@ end
@@ -83,7 +177,7 @@ where
 /*@*/     ensures
 /*@*/         err_post(*vstd::prelude::old(d), *final(d), res),
 /*@*/         (*final(d)).fobs() == (*vstd::prelude::old(d)).fobs(),
-/*@*/         seg_post(*vstd::prelude::old(d), *final(d), old, old_range, new, new_range, alg_lvl(deadline), false, fin::<D>(), res.is_ok()),
+/*@*/         seg_post(*vstd::prelude::old(d), *final(d), old, old_range, new, new_range, alg_lvl(deadline), deadline is None, fin::<D>(), res.is_ok()),
 {
     /*@*/ broadcast use {axiom_pure_index, axiom_pure_eq};
     /*@*/ let ghost rel = rel_of(old, new); let ghost lvl = alg_lvl(deadline);
@@ -252,7 +346,7 @@ where
 /*@*/     ensures
 /*@*/         err_post(*vstd::prelude::old(d), *final(d), res),
 /*@*/         (*final(d)).fobs() == (*vstd::prelude::old(d)).fobs(),
-/*@*/         seg_post(*vstd::prelude::old(d), *final(d), old, old_range, new, new_range, alg_lvl(None), false, fin::<D>(), res.is_ok()),
+/*@*/         seg_post(*vstd::prelude::old(d), *final(d), old, old_range, new, new_range, alg_lvl(None), true, fin::<D>(), res.is_ok()),
 {
     diff_deadline(d, old, old_range, new, new_range, None)
 }
